@@ -469,6 +469,19 @@ package headers
 //@   ensures [C09.header-fallback,C18.header] !old(knownIn(repo.branches, hash)) && result3 == nil ==> result0 != nil && hashOf(result0) == hash && result1 == old(repo.heights[hash]) && result2
 //@   modifies nothing
 
+// loadBranchHashHeights (part of load): the repository-wide height map must give every header the branch holds in
+// memory the height the branch itself records for it (lowest held height + position), also when the lower part of
+// the branch was pruned at load.
+//@ func (*Repository).loadBranchHashHeights
+//@   requires repo != nil && branch != nil && repo.heights != nil && mapOK(*branch)
+//@   ensures [C09.load-heights-agree] forall(o, 0, len(branch.headers), has(repo.heights, branch.headers[o].Hash) && repo.heights[branch.headers[o].Hash] == branch.parentHeight + branch.offset + (o))
+//@   modifies mapof(repo.heights)
+//@   loop 1
+//@     modifies mapof(repo.heights)
+//@     invariant (-1 <= rangeindex && rangeindex < len(branch.headers)) || (len(branch.headers) == 0 && rangeindex == -1)
+//@     invariant height == branch.parentHeight + branch.offset + rangeindex + 1
+//@     invariant forall(o, 0, rangeindex+1, has(repo.heights, branch.headers[o].Hash) && repo.heights[branch.headers[o].Hash] == branch.parentHeight + branch.offset + (o))
+
 //@ func (*Repository).HashHeight
 //@   requires repoInv(repo)
 //@   ensures [C09.height] old(knownIn(repo.branches, hash)) ==> exists(j, 0, len(repo.branches), holderAt(repo.branches, hash, j) && result == findH(repo.branches[j], hash))
